@@ -20,7 +20,7 @@
  *    violation; labels and centroids are identical for every thread count and with or without a centroid output. */
 #include "drv_util.h"
 
-static long ncases(int tier) { return vh_is_tsan() ? (tier ? 1500 : 120) : (tier ? 60000 : 1500); }
+static long ncases(int tier) { return vh_is_tsan() ? (tier ? 1500 : 120) : (tier ? 60000 : 3000); }
 
 static const int OR_METRIC[3] = { 0, 2, 3 };      /* library selection metric code -> or_dist code */
 static const char *MN[3] = { "euclidean", "manhattan", "cosine" };
